@@ -66,6 +66,15 @@ func (e *Exec) RunFunction(fn *ssa.Function) (err error) {
 		e.assumeRequires(fr, st, c)
 	}
 	e.execFunc(fr, st)
+	if c := e.contractOf(fn); c != nil {
+		for _, ns := range c.NoStores {
+			if !e.noStoreHit[ns] {
+				// no store to the field on any explored path: discharged structurally
+				e.curFr, e.curIn = nil, nil
+				e.oblige(&State{pc: True, heap: map[string]*Term{}}, "no-store", ns, True, "")
+			}
+		}
+	}
 	for _, h := range e.hooks {
 		if th, ok := h.(*TraceHook); ok {
 			if un := th.unusedAtEvals(); len(un) > 0 {
@@ -74,6 +83,11 @@ func (e *Exec) RunFunction(fn *ssa.Function) (err error) {
 		}
 	}
 	if c := e.contractOf(fn); c != nil {
+		for _, k := range c.FullLoops {
+			if !e.usedLoopKeys["full:"+k] {
+				return fmt.Errorf("out of subset: contract full-loop key %q matches no loop of %s", k, FuncName(fn))
+			}
+		}
 		for key := range c.Loops {
 			if !e.usedLoopKeys[key] {
 				return fmt.Errorf("out of subset: contract loop key %q matches no loop of %s", key, FuncName(fn))
@@ -325,6 +339,8 @@ type loopInfo struct {
 	header *ssa.BasicBlock
 	key    string
 	invs   []*loopInv
+	body   map[*ssa.BasicBlock]bool
+	noBreak bool // contract: the loop is left only through its header test (every element is visited)
 }
 
 type loopInv struct {
@@ -454,6 +470,30 @@ func (e *Exec) loopHeader(fr *Frame, h *ssa.BasicBlock, st *State, fwd []edge, b
 		fr.loops = map[*ssa.BasicBlock]*loopInfo{}
 	}
 	fr.loops[h] = li
+	li.body = body
+	if c != nil {
+		for _, k := range c.FullLoops {
+			if strings.Contains(li.key, k) || strings.Contains(loopKeyNamed(h), k) {
+				li.noBreak = true
+				e.usedLoopKeys["full:"+k] = true
+				// with no early exit in the code the obligation is discharged structurally
+				early := false
+				for _, b := range sortedBlocks(body) {
+					if b == h {
+						continue
+					}
+					for _, sc := range b.Succs {
+						if !body[sc] {
+							early = true
+						}
+					}
+				}
+				if !early {
+					e.oblige(st, "full-loop", li.key+":left-before-the-end", True, e.posOf(h.Instrs[0]))
+				}
+			}
+		}
+	}
 	for _, inv := range li.invs {
 		// inv-init on the pre-state with initial phi values
 		g := inv.eval(initVals, pre)
